@@ -28,6 +28,8 @@ HEADER = '''\
 import functools as _functools
 from dst.world.rt import R as _R, P as _P, M as _M, Q as _Q, H as _H, RUN as _RUN, E0 as _E0, SUSP as _SUSP
 
+_OFF = globals().get("_OFF", 0)  # fid offset: non-zero only in a twin copy of this module (same source, other file)
+
 
 def _deco(f):
     @_functools.wraps(f)
@@ -95,7 +97,7 @@ def render_body(f, ind, is_method_with_super=False):
     names = named_params(f["params"])
     edict = ", ".join('"%s": %s' % (n, n) for n in names)
     L = []
-    L.append(f"{i}_c = _M(); _sc = _Q.pop() if _Q else _E0; _R((\"E\", _c, {f['fid']}, {{{edict}}}, _sc[0]))")
+    L.append(f"{i}_c = _M(); _sc = _Q.pop() if _Q else _E0; _R((\"E\", _c, {f.get('src_fid', f['fid'])} + _OFF, {{{edict}}}, _sc[0]))")
     inner = f.get("inner")
     if inner:
         isig = render_sig(inner["params"])
@@ -244,7 +246,7 @@ def render_module(spec, modname, extra_header=""):
     others = [m for m in spec["modules"] if m != modname]
     # classes of other modules referenced as bases are imported lazily below
     classes = [c for c in spec["classes"] if c["module"] == modname]
-    funcs = [f for f in spec["funcs"] if f["module"] == modname]
+    funcs = [f for f in spec["funcs"] if f["module"] == modname and "twin_of" not in f]
     imported = set()
     for c in classes:
         for b in c["bases"]:
@@ -283,6 +285,27 @@ def render_module(spec, modname, extra_header=""):
             L.append("")
             L.append("")
     return "\n".join(L) + "\n"
+
+
+TWIN_OFF = 1000
+
+
+def add_twin_module(spec, rng):
+    """Install one module's source under a second module name: its module-level functions then exist
+    twice with equal-but-not-identical code objects (same text, same line, other file)."""
+    cands = [m for m in spec["modules"] if any(f["module"] == m and not f.get("cls") for f in spec["funcs"])]
+    if not cands:
+        return
+    m = rng.choice(cands)
+    t = "t" + m
+    spec["modules"] = spec["modules"] + [t]
+    spec["twins"] = [[t, m]]
+    for f in list(spec["funcs"]):
+        if f["module"] == m and not f.get("cls") and f["kind"] in ("func", "wrapped"):
+            g = dict(f, fid=f["fid"] + TWIN_OFF, module=t, twin_of=f["fid"], src_fid=f["fid"])
+            if f.get("inner"):
+                g["inner"] = dict(f["inner"], fid=f["inner"]["fid"] + TWIN_OFF, src_fid=f["inner"]["fid"])
+            spec["funcs"].append(g)
 
 
 class Loaded:
@@ -334,7 +357,8 @@ def load(spec, root=None):
             if root and os.path.exists(os.path.join(base, m + ".py")):
                 os.unlink(os.path.join(base, m + ".py"))
             continue
-        src = render_module(spec, m)
+        twin_src = dict(spec.get("twins") or []).get(m)
+        src = render_module(spec, twin_src or m)
         fn = os.path.join(base, m + ".py")
         if root:
             with open(fn, "w") as fh:
@@ -345,6 +369,8 @@ def load(spec, root=None):
         sys.modules[pkg + "." + m] = mod
         setattr(pm, m, mod)
         code = compile(src, fn, "exec", dont_inherit=True)
+        if twin_src:
+            mod.__dict__["_OFF"] = TWIN_OFF
         exec(code, mod.__dict__)
         lp.modules[m] = mod
         lp.sources[m] = src
@@ -384,8 +410,8 @@ def load(spec, root=None):
         lp.code_objs[f["fid"]] = raw.__code__
         inner = f.get("inner")
         if inner:
-            ic = _find_inner_code(raw.__code__, "_inner%d" % inner["fid"])
-            lp.funcs[inner["fid"]] = dict(inner, kind="inner", module=f["module"], cls=None, name="_inner%d" % inner["fid"], outer_fid=f["fid"])
+            ic = _find_inner_code(raw.__code__, "_inner%d" % inner.get("src_fid", inner["fid"]))
+            lp.funcs[inner["fid"]] = dict(inner, kind="inner", module=f["module"], cls=None, name="_inner%d" % inner.get("src_fid", inner["fid"]), outer_fid=f["fid"])
             lp.code[id(ic)] = inner["fid"]
             lp.code_objs[inner["fid"]] = ic
             lp.fobj[inner["fid"]] = None
